@@ -41,12 +41,12 @@ def gen_list(case):
     for i in range(k):
         o = None
         enss = [e for e in case['ens'] if rng.random() < 0.7] or [rng.choice(case['ens'])]
-        if case['mode'] in ('single', 'strides'):
+        if case['mode'] in ('single', 'strides', 'touch'):
             enss = [case['ens'][0]]
         for e in enss:
             names = [n for n in layout if n.startswith(e + '|')]
-            if case['mode'] in ('single', 'strides'):
-                names = names[:1] if case['mode'] == 'single' or rng.random() < 0.6 else names[:2]
+            if case['mode'] in ('single', 'strides', 'touch'):
+                names = names[:1] if case['mode'] in ('single', 'touch') or rng.random() < 0.6 else names[:2]
             samples, idl = [], []
             obs_stride = rng.choice([1, 2, 3, 4, 5, 6, 7])
             for n in names:
@@ -68,6 +68,12 @@ def gen_list(case):
                         il = list(il)
                         if len(il) > 8 and rng.random() < 0.5:
                             del il[rng.randrange(1, len(il) - 1)]
+                if case['mode'] == 'touch':
+                    # two stretches of the chain that share exactly ONE configuration (or two): the smallest non-empty overlap
+                    h_ = len(il) // 2
+                    il = il[:h_ + 1 + (case['seed'] % 2)] if i % 2 == 0 else il[h_:]
+                    if len(il) < 5:
+                        il = layout[n]
                 if case['mode'] == 'nested':
                     il = il[:rng.randint(max(5, len(il) // 2), len(il))]
                 elif case['mode'] == 'overlap':
@@ -145,10 +151,12 @@ def check_case(ctx, case):
                 if len(a.names) == 1 and a.names == b.names and not a.covobs and not b.covobs:
                     nm = a.names[0]
                     common = sorted(set(a.idl[nm]) & set(b.idl[nm]))
-                    if len(common) < 3:
+                    if len(common) < 1:
                         continue
                     da = np.array([a.deltas[nm][list(a.idl[nm]).index(c)] for c in common])
                     db = np.array([b.deltas[nm][list(b.idl[nm]).index(c)] for c in common])
+                    if (da @ da) * (db @ db) == 0:
+                        continue
                     ref = float(da @ db / np.sqrt((da @ da) * (db @ db)))
                     if not close(cor[i, j], ref, rtol=1e-9):
                         probs.append(('violation', 'pearson', '(%d,%d): %r vs %r' % (i, j, cor[i, j], ref)))
@@ -247,7 +255,7 @@ def rng_choice_E(case, n):
 
 def gen_case(ctx):
     rng = ctx.rng
-    mode = rng.choice(['single', 'single', 'same', 'nested', 'overlap', 'strides', 'strides'])
+    mode = rng.choice(['single', 'single', 'same', 'nested', 'overlap', 'strides', 'strides', 'touch'])
     return {'seed': rng.getrandbits(28), 'n': rng.randint(2, 8), 'ens': sorted(rng.sample(['A', 'B', 'C'], rng.choice([1, 2, 3]))), 'mode': mode,
             'cov': rng.random() < 0.3, 'uneven': rng.random() < 0.5, 'identical': rng.random() < 0.3, 'disjoint': rng.random() < 0.3,
             'S': rng.choice([0.0, 1.0, 2.0]), 'sameidl': mode == 'single' and rng.random() < 0.7,
